@@ -98,7 +98,7 @@ pub fn run(cx: &Ctx) {
     cx.assume("inputs outside the C01 domain (kappa > 1e12, |x| outside {0} U [1e-30,1e30]) are discarded and counted, never judged");
     let w = cx.workers;
     let (mid, big) = (3000, cx.by(12000, 30000));
-    let cases = cx.by(250, 8000 / 2);
+    let cases = cx.by(2000, 40000);
     let strat = move || gen::dataset(1, mid, big, 11.9).prop_map(|xs| Xs { xs });
     let bounds = "n 1..=30000 (quick 12000), kappa <= 1e12";
     cx.label("generated");
@@ -112,12 +112,12 @@ pub fn run(cx: &Ctx) {
             move || (any::<u64>(), gen::placement(11.9)).prop_map(move |(seed, pl)| Xs { xs: gen::bulk_dataset(n, seed, &pl) })
         };
         cx.label("bulk");
-        cx.run_pt(&var_check(), 2, w, bulk(100_000), "bulk n = 1e5");
-        cx.run_pt(&var_check(), 1, 4, bulk(1_000_000), "bulk n = 1e6");
+        cx.run_pt(&var_check(), 4, w, bulk(100_000), "bulk n = 1e5");
+        cx.run_pt(&var_check(), 1, 8, bulk(1_000_000), "bulk n = 1e6");
         cx.run_pt(&mean_check(), 1, 4, bulk(1_000_000), "bulk n = 1e6");
         cx.label("search");
-        cx.run_climb(&var_check(), climb_starts(cx, 96, 0xC01), 4000, mutate_xs, "hill-climb on error/envelope, 96 starts x 4000 steps");
-        cx.run_climb(&mean_check(), climb_starts(cx, 48, 0xC01A), 4000, mutate_xs, "hill-climb, 48 starts x 4000 steps");
+        cx.run_climb(&var_check(), climb_starts(cx, 256, 0xC01), 6000, mutate_xs, "hill-climb on error/envelope, 256 starts x 6000 steps");
+        cx.run_climb(&mean_check(), climb_starts(cx, 128, 0xC01A), 6000, mutate_xs, "hill-climb, 128 starts x 6000 steps");
     }
 }
 
